@@ -3,7 +3,8 @@
    checks/c18.py), proofs are in Proofs/DataProofs.v.  Every theorem is followed by Print Assumptions. *)
 From Coq Require Import List Bool Arith ZArith QArith Qround Permutation Sorted.
 Import ListNotations.
-From SG Require Import State.Data Proofs.DataProofs.
+From SG Require Import State.Data Proofs.DataProofs Proofs.DataFloat.
+From Coq Require Reals.
 Local Open Scope nat_scope.
 
 (* ---- split_dataset ------------------------------------------------------------------------------- *)
@@ -19,6 +20,16 @@ Theorem split_floor_rule_range :
 Proof. intros f n H0 H1. split; [apply floor_size_range; assumption|apply floor_size_spec]. Qed.
 Goal True. idtac "ASSUMPTIONS split_floor_rule_range". Abort.
 Print Assumptions split_floor_rule_range.
+
+(* The same range for the rule as the code evaluates it: the product is rounded to binary64 (nearest even) before the
+   floor; q is the real value of the float test_split, n < 2^53 converts exactly.  (Flocq; uses the axioms of Reals.) *)
+Theorem split_float_floor_rule_range :
+  forall (q : Rdefinitions.R) (n : Z),
+    (Rdefinitions.Rle (Rdefinitions.IZR 0) q /\ Rdefinitions.Rle q (Rdefinitions.IZR 1)) -> (0 <= n < 2 ^ 53)%Z ->
+    (0 <= Flocq.Core.Raux.Zfloor (b64_round (Rdefinitions.Rmult q (Rdefinitions.IZR n))) <= n)%Z.
+Proof. exact float_floor_rule_range. Qed.
+Goal True. idtac "ASSUMPTIONS split_float_floor_rule_range". Abort.
+Print Assumptions split_float_floor_rule_range.
 
 (* all n, all sizes, all permutations: the three index lists partition 0..n-1 *)
 Theorem split_indices_partition :
